@@ -21,6 +21,12 @@ CLAIMS = {
             "slab/fault siblings, every section interpolation is cur + f*(next-cur) of the neighbouring section (features and kernel), "
             "per-section model loops, provenance/sizing of per-section tables, guarded section override",
             "§3.5, §3.6, §4 C10"),
+    "C11": ("sign-domain abstract interpretation + computer-algebra proof of the interpolant + merge-structure analysis",
+            "approx reflexive over {-,0,+} (known finding: false at 0), corner/user point merge structure (same-point overwrite at "
+            "pair_i/2, append of (value,x,y), degree conversion), symbolic proof that the in-triangle interpolant is the affine function "
+            "through the triangle's vertices, vertex pairing, min/max over all values, full-scan fallback. Delaunay triangulation and "
+            "tolerance arithmetic are not decided",
+            "§3.13, §3.6, §4 C11"),
     "C12": ("validation-discipline analysis (size facts vs. element accesses, dominance of input gates)",
             "A2: every element access to an input-derived member vector on the query path is covered by a release-active size "
             "fact (schema minItems / WBAssertThrow / resize); A1: relied-upon length checks are not debug-only; A3/A4: no "
@@ -101,6 +107,16 @@ CLAIMS.update({
             "direction vector, Cartesian and spherical 2D->3D point map, degree conversion, release-active refusal as first statement, "
             "2D slot walker vs library width table, velocity projection evaluated in statement order, 2D single-property forwarding",
             "§3.6, §3.2, §3.4, §4 C09"),
+})
+
+CLAIMS.update({
+    "C19": ("computer-algebra identity + interval check + structural rule",
+            "THREE clauses only: the closest-point search's cubic coefficients (vector and scalar form) expand to the Bernstein form of "
+            "BezierCurve::operator() and the reported point is that cubic at the reported parameter; the acos clamp of the great-circle "
+            "distance is the identity on [-1,1]; kd-tree search structure (near child unconditional, far child pruned on the split-axis "
+            "difference, same mid in build and search). Nearest-ness, polygon exactness, Newton convergence, conversion round trip are "
+            "not decided",
+            "§3.6, §3.13, §4 C19"),
 })
 
 NOT_APPLICABLE = {
